@@ -592,6 +592,13 @@ for _p in ("C01", "C04", "C07", "C11"):
     CLAIMED[_p]["text"] += _R9_WBRIDGE3B
 
 
+CLAIMED["C09"]["text"] += (" Round 9 (fix9b): KF-C09-CALC-SIGNAL-MAX-RET0 REPAIRED (sf_command returns psf->error behind psf_calc_signal_max): Sf.Command.calcSignalMax models the refusal arms, "
+                            "calc_signal_max_refusal_convention / calc_signal_max_refusal_holds / calc_signal_max_success_clean hold at full strength for SFC_CALC_[NORM_]SIGNAL_MAX on every handle that cannot scan; "
+                            "calc_signal_max_old_rule / calc_signal_max_refusal_old_rule keep the rule before the repair (supersedes calc_signal_max_refusal_full_fails / _partial); no class is waived in the failure-value table; both witnesses are regressions.")
+CLAIMED["C17"]["text"] += (" Round 9 (fix9b): the command model follows the repair of KF-C09-CALC-SIGNAL-MAX-RET0 -- SFC_CALC_[NORM_]SIGNAL_MAX on a handle that cannot seek / cannot read returns the recorded error number "
+                            "(lean/SfProps/C17Routes.lean calc_signal_max_route_guards; the exhaustive grid compares the return value on write-only handles and pipes).")
+
+
 def main():
     checks = []
     for p in PROPS:
